@@ -10,7 +10,10 @@ def o(s):
 
 CAPITALISABLE = ["one", "two", "three", "kettő", "ábc", "ice-cream", "o'neil", "zebra", "łódź", "ñu", "polish", "größe", "x-ray-gun", "mcdonald", "'tis", ".net", "#tag", "(sic)",
                  # title forms with MORE bytes than the word (2 -> 3) and with FEWER (2 -> 1); words ending in what separators are made of
-                 "ɐb", "ȿx", "ɥz", "ıx", "ſy", "co-", "mp3", "e.g."]
+                 "ɐb", "ȿx", "ɥz", "ıx", "ſy", "co-", "mp3", "e.g.",
+                 # letters after punctuation that is not ASCII (title-casing starts a new word only after a non-letter: U+2019 and the
+                 # middle dot are not letters, so the next letter is capitalised; the inverted question mark likewise)
+                 "o’brien", "¿qué", "paral·lel"]
 UNCAP = ["4x", "Polish", "漢字", "-dash", "Łódź", "USA", "7"]
 SCHEMES = ["none", "first", "all", "random", "one"]
 
@@ -57,6 +60,9 @@ def words_list(rng, n, uncap=0, twins=False, dups=False):
         ws += rng.choice([["polish", "Polish"], ["mcDonald", "McDonald"], ["usa", "USA"], ["polish", "Polish"]])
     if dups:
         ws += [rng.choice(ws)]
+    if rng.random() < 0.12:      # entries that differ only in surrounding white space are different words
+        w = rng.choice(ws)
+        ws += [w + " ", w + "\r"] if rng.random() < 0.5 else [" " + w, w + "\t"]
     rng.shuffle(ws)
     return ws
 
@@ -102,6 +108,10 @@ def directed_trees(rng):
         wl = dict(words=two_words, nolist=0, len=3, cap=rng.choice(["none", "first"]))
         wl.update(sv)
         out.append(dict(kind="wl", wl=wl, maxTrials=1, failRateOne=1, mode="tree", paths=0, maxLeaves=20000, tag="wl-directed-nonprinting", reps=0))
+    # a functional separator that is non-empty for one gap and empty for another, four words (token counts of both parities)
+    for cap in ("none", "one"):
+        wl = dict(words=[o("one"), o("two")], nolist=0, len=4, cap=cap, sep="customlist", sepChar=[], sepVals=[[], o("-")])
+        out.append(dict(kind="wl", wl=wl, maxTrials=1, failRateOne=1, mode="tree", paths=0, maxLeaves=20000, tag="wl-directed-mixed-gaps", reps=0))
     wl = dict(words=[o("one"), [0xA0], [0x200B, 0x200B], o("two")], nolist=0, len=2, cap="none", sep="char", sepChar=o("-"))
     out.append(dict(kind="wl", wl=wl, maxTrials=1, failRateOne=1, mode="tree", paths=0, maxLeaves=20000, tag="wl-directed-nonprinting", reps=0))
     return out
